@@ -525,9 +525,20 @@ func c12Remote(c *an.Ctx) {
 			}
 			n++
 			key := "submit(sendJob)@" + an.FnName(fn)
-			if an.Outermost(fn) != execJob {
-				c.Fail("K3", key+":who-may-submit", in.Pos(), "sendJob may only be called from RemoteJobManager.execJob (slot accounting)")
-				return
+			if host := an.Outermost(fn); host != execJob {
+				// the goroutine body of execJob may have been extracted into a private method that only execJob starts
+				only := host.Object() != nil && !host.Object().Exported()
+				nCallers := 0
+				for caller := range p.Callers(host) {
+					nCallers++
+					if an.Outermost(caller) != execJob {
+						only = false
+					}
+				}
+				if !only || nCallers == 0 {
+					c.Fail("K3", key+":who-may-submit", in.Pos(), "sendJob may only be called from RemoteJobManager.execJob (slot accounting)")
+					return
+				}
 			}
 			ok, w := an.GuardedBy(in, func(r an.Rel) bool {
 				// unlimited: maxJobs <= 0
